@@ -352,6 +352,8 @@ struct Hist {
 	files_scanned: u64,
 	bytes_scanned: u64,
 	msgs_scanned: u64,
+	/// offset of the last slate seen per slate id (a secret may leave as the DIFFERENCE of two offsets)
+	last_offset: std::collections::HashMap<uuid::Uuid, vharness::keychain::BlindingFactor>,
 }
 
 impl Hist {
@@ -417,7 +419,43 @@ impl Hist {
 			}
 		}
 	}
+	/// A secret key must not be recoverable from two slates by a subtraction: the offset of an
+	/// emitted slate minus (or subtracted from) the offset of the previous slate with that id, or the
+	/// offset itself, is compared with every known secret.
+	fn scan_offset(&mut self, kind: &str, s: &Slate, step: usize) {
+		use vharness::keychain::{BlindSum, BlindingFactor, ExtKeychain, Keychain};
+		let kc = ExtKeychain::from_random_seed(true).unwrap();
+		let cur = s.offset.clone();
+		let mut cands: Vec<(String, Vec<u8>)> = vec![("offset".into(), cur.as_ref().to_vec())];
+		if let Some(prev) = self.last_offset.get(&s.id).cloned() {
+			for (name, a, b) in [("offset - previous offset", cur.clone(), prev.clone()), ("previous offset - offset", prev, cur.clone())].iter() {
+				if let Ok(d) = kc.blind_sum(&BlindSum::new().add_blinding_factor(a.clone()).sub_blinding_factor(b.clone())) {
+					cands.push((name.to_string(), d.as_ref().to_vec()));
+				}
+			}
+		}
+		let zero = BlindingFactor::zero();
+		let _ = zero;
+		for (name, bytes) in cands {
+			if bytes.iter().all(|x| *x == 0) {
+				continue;
+			}
+			if let Some(sec) = self.reg.secrets.iter().find(|x| x.bytes == bytes) {
+				let key = format!("offsetdiff|{}|{}|{}", kind, sec.label, name);
+				if !self.hit_keys.contains(&key) {
+					self.hit_keys.insert(key);
+					self.hits.push(json!({
+						"step": step, "where": format!("msg:{}:offset", kind), "secret": sec.label, "secret_owner": sec.wallet,
+						"form": name, "offset": 0, "json_field": "off",
+						"before": "the secret equals this difference of two slate offsets (one subtraction recovers it)",
+					}));
+				}
+			}
+		}
+		self.last_offset.insert(s.id, cur);
+	}
 	fn scan_msg(&mut self, kind: &str, s: &Slate, step: usize) {
+		self.scan_offset(kind, s, step);
 		for (form, bytes) in wire_forms(s) {
 			self.msgs_scanned += 1;
 			for (pi, off, before) in self.reg.scan(&bytes) {
@@ -575,6 +613,7 @@ fn run_history(case: &Value, dir: &str) -> Value {
 		files_scanned: 0,
 		bytes_scanned: 0,
 		msgs_scanned: 0,
+		last_offset: Default::default(),
 	};
 	// long-lived secrets: recovery phrase, seed entropy, root key
 	for w in 0..nw {
